@@ -73,6 +73,24 @@ def run(ctx):
                     bad("gas density times Bg is not the standard-condition mass content at the requested standard conditions",
                         dict(**inp, temperature_standard=tsc, pressure_standard=psc), dict(density_times_Bg=rho * bg_s * 5.615, expected=std_s))
                     break
+        # the same identity for the Fluid facade's array methods on pressures that lie close together (node pressures of a barely
+        # depleted reservoir, a finite-difference stencil): every entry has its own Bg and its own viscosity
+        if k % 4 == 1:
+            from bluebonnet.fluids.fluid import Fluid
+            flg = Fluid(T, 35.0, sg, 650.0)
+            for spacing in (2e-6, 1e-7, 3e-4):
+                pa = p * (1 + spacing * np.arange(5))
+                if pa[-1] / ppc > 30.0:
+                    continue
+                bga = np.asarray(flg.gas_FVF(pa, tpc, ppc), float)
+                mua = np.asarray(flg.gas_viscosity(pa, tpc, ppc), float)
+                rhoa = np.array([float(gas.density_DAK(T, float(q), tpc, ppc, sg)) for q in pa])
+                muw = np.array([float(gas.viscosity_Sutton(T, float(q), tpc, ppc, sg)) for q in pa])
+                ev += 1
+                if bga.shape != pa.shape or not np.allclose(rhoa * bga * 5.615, std, rtol=1e-10, atol=0) or not np.allclose(mua, muw, rtol=1e-12, atol=0):
+                    bad("gas density times the Bg returned by Fluid.gas_FVF for an array of closely spaced pressures is not the standard-condition mass content at every entry "
+                        "(or Fluid.gas_viscosity is not the correlation's value at every entry)", dict(**inp, pressures=[float(q) for q in pa], relative_spacing=spacing),
+                        dict(density_times_Bg=[float(x) for x in rhoa * bga * 5.615], expected=std, viscosity=[float(x) for x in mua], viscosity_expected=[float(x) for x in muw]))
         # compressibility = d ln(density)/dp (Richardson-extrapolated central differences of the library's own density)
         cg = float(gas.compressibility_DAK(T, p, tpc, ppc))
         f = lambda q: math.log(gas.density_DAK(T, q, tpc, ppc, sg))
